@@ -37,7 +37,7 @@ def rawSetList (cfg : Cfg) (f : Forest) (m : Meta) (its : Items) (key : Int) (in
     | some old =>
       let same := match ve, old.id? with
         | .ref id, some oid => id == oid
-        | _, _ => false
+        | _, _ => ve.isMissing && old.isMissing
       if same then .ok (f, false) else
       let r := evalVE cfg f none (some m.id) false m.part (m.path ++ [Key.i index]) ve
       let f2 := r.1.mapAt m.id (fun _ xs => setKey (Key.i pos) r.2 xs)
@@ -66,6 +66,8 @@ def rawSetDict (cfg : Cfg) (f : Forest) (m : Meta) (its : Items) (key : Key) (ve
     | .ref id, some oid => id == oid
     | _, _ => false
   if same then .ok (f, false) else
+  -- MISSING_VALUE is a singleton: deleting an absent key is `old_value is value`
+  if ve.isMissing && !hasKey its key then .ok (f, false) else
   let badKey := match m.kind with
     | .obj cls => !(clsFields cls).contains key
     | _ => false
